@@ -4,6 +4,7 @@ import (
 	"github.com/invopop/gobl/cal"
 	"github.com/invopop/gobl/cbc"
 	"github.com/invopop/gobl/org"
+	"github.com/invopop/gobl/tax"
 	"github.com/invopop/validation"
 )
 
@@ -21,6 +22,17 @@ type DeliveryDetails struct {
 	Period *cal.Period `json:"period,omitempty" jsonschema:"title=Period"`
 	// Additional custom data.
 	Meta *cbc.Meta `json:"meta,omitempty" jsonschema:"title=Meta"`
+}
+
+// Normalize will try to normalize the delivery details, including the
+// receiver and its tax identity.
+func (d *DeliveryDetails) Normalize(normalizers tax.Normalizers) {
+	if d == nil {
+		return
+	}
+	normalizers.Each(d)
+	tax.Normalize(normalizers, d.Receiver)
+	tax.Normalize(normalizers, d.Identities)
 }
 
 // Validate the delivery details
